@@ -113,6 +113,7 @@ def run(ck, prop, stream, families_note, variants=None, judge=None, theorems=Non
     tie_bad = []
     tie_bad60 = []
     tie_bad61 = []
+    tie_bad62 = []
     r60_bad, r60_n = [], [0]
     excused = Counter()
     claimed = Counter()
@@ -139,8 +140,8 @@ def run(ck, prop, stream, families_note, variants=None, judge=None, theorems=Non
                     tie_bad.append(f"case {c['id']} {var}: Go {rr[0]['status']} cycles={rr[0]['cycles']} vs model {ref[key]}")
         # tie of the Lean model of the superscalar MVP-6.0 (Model.Mvp60, eu = wu = K): status, cycles, ticks and the final
         # registers and memory of the GO RUN (not of the reference: the model must reproduce the wrong results too)
-        # (same loop for Model.Mvp61 / mvp6-1: fields `m61pK`)
-        for prefix, var, K in [(pv[0], pv[1], K) for pv in (("m60p", "mvp6-0"), ("m61p", "mvp6-1")) for K in (1, 2, 3, 4)]:
+        # (same loop for Model.Mvp61 / mvp6-1: fields `m61pK`, and Model.Mvp62 / mvp6-2: fields `m62pK`)
+        for prefix, var, K in [(pv[0], pv[1], K) for pv in (("m60p", "mvp6-0"), ("m61p", "mvp6-1"), ("m62p", "mvp6-2")) for K in (1, 2, 3, 4)]:
             key = f"{prefix}{K}"
             rr = [x for x in res if x["variant"] == var and x["par"] == K]
             if mods and key in ref and rr:
@@ -155,7 +156,7 @@ def run(ck, prop, stream, families_note, variants=None, judge=None, theorems=Non
                 gdig = m60_digest(g.get("regs", ""), g.get("mem", ""))
                 if g["status"] != mstat or (mstat == "ok" and int(cyc) != g["cycles"]) or \
                         (mstat in ("ok", "err") and (int(mticks) != g["ticks"] or dig != gdig)):
-                    (tie_bad60 if prefix == "m60p" else tie_bad61).append(f"case {c['id']} {var}/{K}: Go {g['status']} cycles={g['cycles']} ticks={g['ticks']} state={gdig} vs model {ref[key]}")
+                    {"m60p": tie_bad60, "m61p": tie_bad61, "m62p": tie_bad62}[prefix].append(f"case {c['id']} {var}/{K}: Go {g['status']} cycles={g['cycles']} ticks={g['ticks']} state={gdig} vs model {ref[key]}")
         # R60: a member of the class Model.Mvp60.RegOnly (field r60, first digit) whose reference run is well-formed must be run
         # CORRECTLY by the MVP-6.0 model at every evaluated parallelism (the statement Props.C01.Full_mvp60_regonly_correct)
         if mods and ref.get("r60", "00")[:1] == "1" and not ref["stop"].startswith("notwf"):
@@ -208,6 +209,8 @@ def run(ck, prop, stream, families_note, variants=None, judge=None, theorems=Non
         ck.broken.append(f"correspondence Go MVP-6.0 vs the Lean machine model Model.Mvp60 differs on {len(tie_bad60)} runs; first: {tie_bad60[0]}")
     if tie_bad61:
         ck.broken.append(f"correspondence Go MVP-6.1 vs the Lean machine model Model.Mvp61 differs on {len(tie_bad61)} runs; first: {tie_bad61[0]}")
+    if tie_bad62:
+        ck.broken.append(f"correspondence Go MVP-6.2 vs the Lean machine model Model.Mvp62 differs on {len(tie_bad62)} runs; first: {tie_bad62[0]}")
     if r60_bad:
         ck.broken.append(f"R60: the MVP-6.0 model runs {len(r60_bad)} of {r60_n[0]} register-only (class RegOnly) runs differently from the reference; first: {r60_bad[0]}")
     elif r60_n[0]:
